@@ -49,6 +49,7 @@ type Layer struct {
 	HasHTTP   bool
 	GRPC      int
 	HasGRPC   bool
+	HasDomain bool   // a domain layer (the domain itself may be the empty string)
 	StackFn   string // "" = no stack; else expected first-frame function
 	Barrier   bool   // barrierErr layer (hides Node.Hidden[0])
 	Secondary bool   // withSecondaryError layer
@@ -85,7 +86,7 @@ var (
 
 func domainL(d string) Layer {
 	l := libL("domains", "withDomain")
-	l.Domain, l.Ext = d, d
+	l.Domain, l.Ext, l.HasDomain = d, d, true
 	return l
 }
 
@@ -160,10 +161,22 @@ func OwnLayers(n *gen.Node) []Layer {
 		out = []Layer{l}
 	case "domnew":
 		out = []Layer{domainL(GenPkgDomain), goErrorString}
-	case "gstatus":
+	case "gstatus", "gstatusf":
 		g := libL("extgrpc", "withGrpcCode")
 		g.GRPC, g.HasGRPC = n.N[0], true
-		out = []Layer{g, withStack(lib + "grpc/status.Error"), leafError}
+		fn := "grpc/status.Error"
+		if n.Kind == "gstatusf" {
+			fn = "grpc/status.Errorf"
+		}
+		out = []Layer{g, withStack(lib + fn), leafError}
+	case "oldfmtelide":
+		out = []Layer{harnessL("*gen.OldFmtElideWrap")}
+	case "fmtargleaf":
+		out = []Layer{harnessL("*gen.FmtArgLeaf")}
+	case "domainraw":
+		out = []Layer{domainL(gen.OneLine(S[0]))}
+	case "withstackdeep":
+		out = []Layer{withStack("")}
 	case "goerr":
 		out = []Layer{goErrorString}
 	case "pkgnew":
@@ -403,11 +416,11 @@ func Text(n *gen.Node) string {
 	case "newfew":
 		return S[0] + " " + h(0) + " " + S[1] + " " + k(0)
 	case "goerr", "new", "pkgnew", "nofmtleaf", "fmtleaf", "unimpl", "domnew", "gstatus",
-		"oldfmtleaf", "fmtrleaf", "ncleaf", "isleaf", "hdleaf", "lowleaf", "asleaf", "stacksafeleaf", "elidewrap", "handledmsg", "unimpld":
+		"oldfmtleaf", "fmtrleaf", "ncleaf", "isleaf", "hdleaf", "lowleaf", "asleaf", "stacksafeleaf", "elidewrap", "handledmsg", "unimpld", "oldfmtelide":
 		return S[0]
 	case "newf":
 		return S[1] + " " + S[0] + " " + S[2]
-	case "assertf":
+	case "assertf", "gstatusf":
 		return S[0] + " " + S[1]
 	case "sentinel":
 		return gen.Sentinels[n.N[0]].Error()
@@ -428,7 +441,7 @@ func Text(n *gen.Node) string {
 		return "safe " + S[0] + ": " + k(0)
 	case "withstack", "hint", "detail", "safedetails", "telemetry", "domain", "issuelink", "tags", "tagsafe",
 		"assertion", "mark", "markempty", "secondary", "http", "grpc", "pkgstack", "emptywrap", "wrapempty",
-		"hintf", "detailf", "telemetry0", "combine", "issuelinkd", "issuelinku", "domainnone":
+		"hintf", "detailf", "telemetry0", "combine", "issuelinkd", "issuelinku", "domainnone", "domainraw", "withstackdeep":
 		return k(0)
 	case "newfw":
 		return S[0] + " " + k(0) + " " + S[1]
@@ -456,6 +469,8 @@ func Text(n *gen.Node) string {
 		return S[0] + " tcp: " + k(0)
 	case "emptynew":
 		return ""
+	case "fmtargleaf":
+		return S[0] + " [" + S[1] + "]"
 	case "join", "gojoin", "joinbare":
 		parts := make([]string, len(n.Kids))
 		for i := range n.Kids {
@@ -621,7 +636,7 @@ func Annotations(n *gen.Node) Annot {
 		for _, k := range l.Keys {
 			ks[k] = true
 		}
-		if l.Domain != "" && !gotDomain {
+		if l.HasDomain && !gotDomain {
 			o.Domain, gotDomain = l.Domain, true
 		}
 		if l.Tags != nil {
